@@ -1,4 +1,6 @@
 """Property checks: each function composes rule engines into the verdict for one property."""
+import os
+
 from . import config as C
 from . import facts as F
 from .facts import AnalysisBroken
@@ -90,8 +92,9 @@ def C08():
     u = units[1]
     nmax = 6 if C.tier() == "thorough" else 4
     tot = r_reg.run_jobs(chk, u, "R-REG.grid", _jobs("r_reg_sup", "grid_suite", range(2, nmax + 1), maxlen=nmax - 2,
-                                                     ctors=False))
-    tot += r_reg.run_jobs(chk, u, "R-REG.sup", _jobs("r_reg_sup", "support_suite", range(2, 5), nmax=4))
+                                                     ctors=False), view=r_reg.clause_view(*r_reg.GRID_CLAUSES))
+    tot += r_reg.run_jobs(chk, u, "R-REG.sup", _jobs("r_reg_sup", "support_suite", range(2, 5), nmax=4),
+                          view=r_reg.clause_view(*r_reg.GRID_CLAUSES))
     jobs = [("bsv.r_reg_spl", "arithmetic_suite", dict(nmax=4, order_pairs=(pr,), ns=[], fixed=True))
             for pr in ((1, 1), (2, 1), (0, 2))]
     jobs += _jobs("r_reg_spl", "lincomb_suite", [3], nmax=3)
@@ -138,7 +141,8 @@ def C13():
         total += r_reg.run_jobs(chk, u, "R-REG.grid", _jobs("r_reg_sup", "grid_suite", range(2, nmax + 1),
                                                             maxlen=nmax - 2, ctors=False))
         # copies / moves / assignments (also across grids) hand over grid and window together
-        total += r_reg.run_jobs(chk, u, "R-REG.inv", _jobs("r_reg_spl", "validity_suite", [3, 4], nmax=4)[:-1])
+        total += r_reg.run_jobs(chk, u, "R-REG.inv", _jobs("r_reg_spl", "validity_suite", [3, 4], nmax=4)[:-1],
+                                view=r_reg.clause_view(*r_reg.WINDOW_CLAUSES))
     chk.note("oracle_self_check_triples", r_reg_sup.check_oracle(6 if C.tier() == "thorough" else 5))
     chk.note("regions_evaluated", total)
     chk.note("grid_size_bound", nmax)
@@ -169,6 +173,28 @@ def _expr_ownership(chk, fwd=False):
     by-value API turned into a by-reference one; compound operators forward to every member operator."""
     from . import r_own as _ro, r_grd as _rg, controls as _ct
     units = _lib_units(["cases_off"])
+    chk.rule("R-OWN.lvalue", "operator expressions, forms and wrappers can be built from named (const and non-const lvalue) "
+                             "operators, splines and scalars: drivers/drv_lvalue.h type-checks against the current headers; "
+                             "what the deduction guides / forwarding overloads deduce is then subject to R-OWN.field")
+    try:
+        units = units + [F.load("lvalue")]
+        chk.ok("R-OWN.lvalue", "drivers/drv_lvalue.h", "every construction from lvalues compiles (double and archetype)",
+               key="lvalue")
+    except F.ExtractError as ex:
+        import re as _re
+        m = None
+        for ln in ex.stderr.splitlines():
+            m = _re.match(r"(.+?):(\d+):(\d+): error: (.*)$", ln)
+            if m and C.in_repo(os.path.abspath(m.group(1))):
+                break
+            m = None
+        if m is None:
+            raise
+        chk.bad("R-OWN.lvalue", "%s:%s" % (C.rel(os.path.abspath(m.group(1))), m.group(2)),
+                "(instantiated from drivers/drv_lvalue.h)", "compile-error:" + m.group(4)[:80],
+                "building an operator expression / form from a named operand no longer compiles: " + m.group(4),
+                witness=dict(unit="lvalue", compiler_output=ex.stderr[-1500:]))
+    chk.units.append("lvalue")
     _ro.expression_members(chk, units)
     _ro.returned_references(chk, units)
     _ro.api_returns(chk, units)
@@ -233,10 +259,11 @@ def C15():
         chk.units.append(n)
         total += r_reg.run_jobs(chk, u, "R-REG.pred", _jobs("r_reg_spl", "predicate_suite", range(2, nmax + 1),
                                                             nmax=nmax))
+        pv = r_reg.clause_view(*r_reg.PRED_CLAUSES)
         total += r_reg.run_jobs(chk, u, "R-REG.grid", _jobs("r_reg_sup", "grid_suite", range(2, nmax + 1),
-                                                            maxlen=nmax - 2, ctors=False))
+                                                            maxlen=nmax - 2, ctors=False), view=pv)
         total += r_reg.run_jobs(chk, u, "R-REG.sup", _jobs("r_reg_sup", "support_suite", range(2, min(nmax, 4) + 1),
-                                                           nmax=min(nmax, 4)))
+                                                           nmax=min(nmax, 4)), view=pv)
     chk.note("regions_evaluated", total)
     chk.exhaustive = True
     chk.floor("R-REG.pred", chk.rules["R-REG.pred"]["instances"], 6, "(function, clause) obligations")
@@ -621,11 +648,11 @@ def C10():
     for n in _reg_unit_names():
         u = F.load(n)
         chk.units.append(n)
-        total += r_reg.run_jobs(chk, u, "R-REG.inv", lib)
+        total += r_reg.run_jobs(chk, u, "R-REG.inv", lib, view=r_reg.inv_view)
     for n in _cases_units():
         u = F.load(n)
         chk.units.append(n)
-        total += r_reg.run_jobs(chk, u, "R-REG.inv", cases)
+        total += r_reg.run_jobs(chk, u, "R-REG.inv", cases, view=r_reg.inv_view)
     chk.note("regions_evaluated", total)
     chk.note("functions_evaluated_abstractly", len(chk.executed))
     chk.exhaustive = True
@@ -667,11 +694,11 @@ def C11():
         jobs += _jobs("r_reg_val", "generator_suite", range(0, 6 if thorough else 5), maxlen=5 if thorough else 4)[:-1]
         jobs += _jobs("r_reg_val", "interpolate_suite", range(2, 5 if thorough else 4), nmax=4 if thorough else 3,
                       orders=(1, 2, 3, 4) if thorough else (1, 2, 3))
-        total += r_reg.run_jobs(chk, u, "R-REG.val", jobs)
+        total += r_reg.run_jobs(chk, u, "R-REG.val", jobs, view=r_reg.clause_view(*r_reg.ACC_CLAUSES))
     chk.note("regions_evaluated", total)
     chk.exhaustive = True
     r_small.r_thr(chk, _lib_units())
-    chk.floor("R-REG.val", chk.rules["R-REG.val"]["instances"], 40, "(function, clause) obligations")
+    chk.floor("R-REG.val", chk.rules["R-REG.val"]["instances"], 14, "(function, acceptance clause) obligations")
     chk.floor("R-THR", chk.rules["R-THR"]["instances"], 8, "throw expressions")
     from . import controls
     controls.require(chk, ['R-THR'])
@@ -741,9 +768,9 @@ def C14():
     lib, cases = _broad_jobs(nsmall)
     total = 0
     for n in _reg_unit_names():
-        total += r_reg.run_jobs(chk, F.load(n), "R-REG.unchanged", lib)
+        total += r_reg.run_jobs(chk, F.load(n), "R-REG.unchanged", lib, view=r_reg.val_view)
     for n in _cases_units():
-        total += r_reg.run_jobs(chk, F.load(n), "R-REG.unchanged", cases)
+        total += r_reg.run_jobs(chk, F.load(n), "R-REG.unchanged", cases, view=r_reg.val_view)
         chk.units.append(n)
     chk.note("regions_evaluated", total)
     chk.floor("R-OWN.iface", chk.rules["R-OWN.iface"]["instances"], 60, "public functions")
